@@ -554,25 +554,42 @@ class Check:
             json.dump(ev, f, indent=1, default=repr)
 
 
-def _anchor_files(ident):
+def _anchor_spec(ident):
+    """anchor files of the property and, per file, the function names named in anchors.mechanism[].where"""
+    files, funcs = [], {}
     for line in open(os.path.join(VERIF, "properties.jsonl")):
         d = json.loads(line)
-        if d["id"] == ident:
-            return [os.path.join(REPO, f) for f in d["anchors"]["files"]]
-    return []
+        if d["id"] != ident:
+            continue
+        files = list(d["anchors"]["files"])
+        for m in d["anchors"].get("mechanism", []):
+            for part in (m.get("where") or "").split(";"):
+                part = part.strip()
+                if ":" not in part:
+                    continue
+                f, names = part.split(":", 1)
+                f = f.strip()
+                for nm in re.split(r"[,/]| and ", names):
+                    nm = re.sub(r"\(.*?\)", "", nm).strip().split(".")[-1].strip()
+                    if re.fullmatch(r"[A-Za-z_][A-Za-z0-9_]*", nm or ""):
+                        funcs.setdefault(f, set()).add(nm)
+    return files, funcs
+
+
+def _anchor_files(ident):
+    return [os.path.join(REPO, f) for f in _anchor_spec(ident)[0]]
 
 
 def _start_coverage(check):
-    """line/branch coverage of the property's anchor files while the real code runs (evidence only)"""
-    if getattr(check, "no_coverage", False):
-        return None
+    """line coverage of the property's anchored functions while the real code runs (evidence only)"""
+    if getattr(check, "no_coverage", False) or check.ident in ("C19", "C20"):
+        return None      # those harnesses drive threads with their own sys.settrace scheduler
     try:
         import coverage
-        os.environ.setdefault("COVERAGE_CORE", "sysmon")
         files = _anchor_files(check.ident)
         if not files:
             return None
-        c = coverage.Coverage(data_file=None, branch=True, include=files, config_file=False)
+        c = coverage.Coverage(data_file=None, branch=False, include=files, config_file=False)
         c.start()
         return c
     except Exception:
@@ -580,16 +597,32 @@ def _start_coverage(check):
 
 
 def _stop_coverage(c, check):
+    import ast
     out = {}
     try:
         c.stop()
-        for f in _anchor_files(check.ident):
+        files, funcs = _anchor_spec(check.ident)
+        for rel in files:
+            f = os.path.join(REPO, rel)
             try:
                 (_fn, stmts, _excl, missing, _fmt) = c.analysis2(f)
-                out[os.path.relpath(f, REPO)] = {"statements": len(stmts), "missing": len(missing),
-                                                 "percent": round(100.0 * (len(stmts) - len(missing)) / max(1, len(stmts)), 1)}
+                stmts, missing = set(stmts), set(missing)
+                entry = {"file_statements": len(stmts), "file_percent": round(100.0 * (len(stmts) - len(missing)) / max(1, len(stmts)), 1)}
+                want = funcs.get(rel, set())
+                if want:
+                    tree = ast.parse(open(f).read())
+                    per = {}
+                    for node in ast.walk(tree):
+                        if isinstance(node, (ast.FunctionDef, ast.AsyncFunctionDef)) and node.name in want:
+                            lines = set(range(node.lineno, node.end_lineno + 1))
+                            st = stmts & lines
+                            ms = missing & lines
+                            per[node.name] = {"statements": len(st), "missing_lines": sorted(ms)[:12],
+                                              "percent": round(100.0 * (len(st) - len(ms)) / max(1, len(st)), 1)}
+                    entry["anchored_functions"] = per
+                out[rel] = entry
             except Exception as ex:
-                out[os.path.relpath(f, REPO)] = {"error": repr(ex)[:100]}
+                out[rel] = {"error": repr(ex)[:100]}
     except Exception as ex:
         out["error"] = repr(ex)[:200]
     return out
